@@ -950,6 +950,147 @@ class bpseq_elements_prefix:
     }
 
 
+# ------------------------------------------------------------------------------------------------ BpSeq.elements (loop-linking graph)
+@spec
+def link(E, LC, a, b):
+    """the 3' end of candidate strand a is base-paired with the 5' end of candidate strand b"""
+    return E[LC[a].last - 1].pair == LC[b].first
+
+
+@spec
+def graph_only_links(GR, E, LC):
+    """every edge of the loop-linking graph joins two different candidates whose consecutive ends are base-paired"""
+    return forall(lambda a, b: implies(a in GR and b in GR[a], 0 <= a and a < len(LC) and 0 <= b and b < len(LC) and a != b and link(E, LC, a, b)))
+
+
+@spec
+def graph_all_links(GR, E, LC, i, j):
+    """every such pair of candidates (a, b), a < b, handled so far - a < i, or a == i and b < j - is an edge, in either direction"""
+    return forall(lambda a, b: implies(0 <= a and a < b and b < len(LC) and (a < i or (a == i and b < j)),
+                                       implies(link(E, LC, a, b), a in GR and b in GR[a]) and implies(link(E, LC, b, a), b in GR and a in GR[b])))
+
+
+@spec
+def gaps_classified(KIND, IDX, HPG, LCG, stops, E, upto):
+    """every gap between two consecutive stops (numbers < upto) whose interior is unpaired is reported: as the hairpin number IDX[g]
+    when its two ends are partners, as the loop-strand candidate number IDX[g] otherwise (HPG / LCG: the gap a hairpin / candidate
+    comes from)"""
+    return forall(lambda g: implies(0 <= g and g < upto and forall(lambda x: implies(stops[g] < x and x < stops[g + 1], E[x].pair == 0)),
+                                    ite(E[stops[g]].pair == stops[g + 1] + 1,
+                                        KIND[g] == 1 and 0 <= IDX[g] and IDX[g] < len(HPG) and HPG[IDX[g]] == g,
+                                        KIND[g] == 2 and 0 <= IDX[g] and IDX[g] < len(LCG) and LCG[IDX[g]] == g)))
+
+
+@spec
+def hairpin_gaps(HP, HPG, stops):
+    """hairpin b spans the gap number HPG[b]: from the stop stops[HPG[b]] to the next one"""
+    return (len(HPG) == len(HP)
+            and forall(lambda b: implies(0 <= b and b < len(HP), 0 <= HPG[b] and HPG[b] < len(stops) - 1
+                                         and HP[b].strand.first == stops[HPG[b]] + 1 and HP[b].strand.last == stops[HPG[b] + 1] + 1)))
+
+
+@spec
+def candidate_gaps(LC, LCG, stops):
+    """candidate c spans the gap number LCG[c]"""
+    return (len(LCG) == len(LC)
+            and forall(lambda c: implies(0 <= c and c < len(LC), 0 <= LCG[c] and LCG[c] < len(stops) - 1
+                                         and LC[c].first == stops[LCG[c]] + 1 and LC[c].last == stops[LCG[c] + 1] + 1)))
+
+
+class bpseq_elements_graph(bpseq_elements_prefix):
+    """PREFIX contract of BpSeq.elements with the cut moved behind the two loops that build the loop-linking graph (up to, not
+    including, `used = set()`): every clause of bpseq_elements_prefix, proved at the later point, plus: the graph over the
+    loop-strand candidates has an edge a -> b exactly when a != b and the 3' end of candidate a is base-paired with the 5' end of
+    candidate b (C07 'consecutive ends are base-paired': the relation along which the closure walk chains strands into loops);
+    and, along the stops loop: every gap between two consecutive stops whose interior is unpaired is reported as a hairpin (ends are
+    partners) or as a loop-strand candidate, each hairpin / candidate spanning exactly its gap (gaps_classified, hairpin_gaps,
+    candidate_gaps).  TAIL_FACTS: the clauses the tail contract (contracts/common_elems_tail_c.py) starts from."""
+    stop_before = "used = set()"
+    # the clauses TAIL_FACTS restate what the tail contract (contracts/common_elems_tail_c.py, BpSeq.elements@tail) takes as its
+    # entry facts, over the object's own fields instead of the ghost names E / DB (which denote the same values here)
+    TAIL_FACTS = [
+        "valid(self.entries)",
+        "len(loop_candidates) >= 0 and forall(lambda b: implies(0 <= b and b < len(loop_candidates), cand_ok(loop_candidates[b], self.entries, self.dot_bracket_.structure)))",
+        "graph_only_links(graph, self.entries, loop_candidates)",
+        "graph_all_links(graph, self.entries, loop_candidates, len(loop_candidates), 0)",
+        "len(loops) == 0 and len(single_strands) >= 0",
+    ]
+    stop_ensures = bpseq_elements_prefix.stop_ensures + [
+        "graph_only_links(graph, E, loop_candidates)",
+        "graph_all_links(graph, E, loop_candidates, len(loop_candidates), 0)",
+    ] + TAIL_FACTS + ["gaps_classified(KIND, IDX, HPG, LCG, stops, E, len(stops) - 1)", "hairpin_gaps(hairpins, HPG, stops)",
+                      "candidate_gaps(loop_candidates, LCG, stops)"]
+    stop_ensures_labels = {**bpseq_elements_prefix.stop_ensures_labels, 6: "graph-edges-join-base-paired-consecutive-ends",
+                           7: "every-base-paired-pair-of-ends-is-an-edge", 8: "tail-fact:valid-structure", 9: "tail-fact:loop-candidates",
+                           10: "tail-fact:graph-edges", 11: "tail-fact:graph-complete", 12: "tail-fact:no-loops-yet",
+                           13: "every-gap-with-unpaired-interior-is-a-hairpin-or-a-loop-candidate", 14: "hairpins-span-their-gaps",
+                           15: "candidates-span-their-gaps"}
+    locals = dict(bpseq_elements_prefix.locals, graph="dict[int,set[int]]")
+    defaultdicts = ["graph"]
+    _CANDS = "forall(lambda b: implies(0 <= b and b < len(loop_candidates), cand_ok(loop_candidates[b], E, DB)))"
+    loops = dict(bpseq_elements_prefix.loops)
+    # (the new invariants stand in FRONT of the inherited ones: the inherited ghost steps address the inherited invariants by
+    # their distance from the end of the hypothesis list)
+    loops[1] = dict(loops[1], inv=["gaps_classified(KIND, IDX, HPG, LCG, stops, E, i - 1)", "hairpin_gaps(hairpins, HPG, stops)",
+                                   "candidate_gaps(loop_candidates, LCG, stops)"] + list(loops[1]["inv"]),
+                    labels={0: "gaps-with-unpaired-interior-are-reported", 1: "hairpins-span-their-gaps", 2: "candidates-span-their-gaps"})
+    loops.update({
+        # for i in range(len(loop_candidates))
+        2: {"inv": ["graph_only_links(graph, E, loop_candidates)", "graph_all_links(graph, E, loop_candidates, i, 0)"],
+            "labels": {0: "edges-join-base-paired-ends", 1: "all-pairs-below-i-recorded"}},
+        # for j in range(i + 1, len(loop_candidates))
+        3: {"inv": ["graph_only_links(graph, E, loop_candidates)", "graph_all_links(graph, E, loop_candidates, i, j)"],
+            "labels": {0: "edges-join-base-paired-ends", 1: "all-pairs-up-to-(i,j)-recorded"}},
+    })
+    _LASTH = "hairpins[len(hairpins) - 1]"
+    _LASTC = "loop_candidates[len(loop_candidates) - 1]"
+    ghost = bpseq_elements_prefix.ghost + [
+        # gap classification along the stops loop (ghost maps: KIND[g] 0 = not reported / 1 = hairpin / 2 = candidate, IDX[g] its number,
+        # HPG / LCG the gap of a hairpin / candidate).  The three clauses are re-proved at the end of every pass in a sub-proof that
+        # sees the loop-head facts and the GROUND facts of the pass only (the quantified by-products of the pass are set aside).
+        {"when": "after", "at": "loop_candidates = []", "label": "gap-maps",
+         "do": ["let KIND = fill(len(stops), 0)", "let IDX = fill(len(stops), 0 - 1)", "let HPG = empty('list[int]')", "let LCG = empty('list[int]')"]},
+        {"when": "before", "at": "candidate = self.entries[", "loop": 1, "label": "gap-start",
+         "do": ["mark B", "let KIND = upd(KIND, i - 1, 0)", "let frB = frontier()", "let HPB = hairpins", "let LCB = loop_candidates"]},
+        {"when": "after", "at": "hairpins.append(", "loop": 1, "label": "gap-is-a-hairpin",
+         "do": ["let KIND = upd(KIND, i - 1, 1)", "let IDX = upd(IDX, i - 1, len(hairpins) - 1)", "let HPG = snoc(HPG, i - 1)"]},
+        {"when": "after", "at": "loop_candidates.append(", "loop": 1, "label": "gap-is-a-candidate",
+         "do": ["let KIND = upd(KIND, i - 1, 2)", "let IDX = upd(IDX, i - 1, len(loop_candidates) - 1)", "let LCG = snoc(LCG, i - 1)"]},
+        {"when": "after", "at": "if all([entry.pair == 0 for entry in candidate[1:-1]])", "loop": 1, "label": "gap-classified",
+         "do": [  # (on the pass that reports nothing the last hypothesis is the failed test)
+                "assert_last 1 implies(KIND[i - 1] == 0, not forall(lambda t: implies(0 <= t and t < len(C1), C1[t].pair == 0)))",
+                "let BL = [C1[t].pair == 0 for t in range(len(C1))]", "let wt = first_index(BL, False)", "let wx = p + 1 + wt",
+                "assert_last 4 implies(KIND[i - 1] == 0, exists(lambda t: 0 <= t and t < len(BL) and BL[t] == False))",
+                "assert_last 5 implies(KIND[i - 1] == 0, 0 <= wt and wt < len(C1) and C1[wt].pair != 0)",
+                "assert implies(KIND[i - 1] == 0, p < wx and wx < q and E[wx].pair != 0)",
+                f"assert implies(KIND[i - 1] == 1, E[p].pair == q + 1 and {_LASTH}.strand.first == p + 1 and {_LASTH}.strand.last == q + 1"
+                f" and frB <= ident({_LASTH}) and len(hairpins) == len(HPB) + 1 and len(loop_candidates) == len(LCB))",
+                f"assert implies(KIND[i - 1] == 2, E[p].pair != q + 1 and {_LASTC}.first == p + 1 and {_LASTC}.last == q + 1"
+                " and len(loop_candidates) == len(LCB) + 1 and len(hairpins) == len(HPB))",
+                "assert implies(KIND[i - 1] == 0, len(hairpins) == len(HPB) and len(loop_candidates) == len(LCB))",
+                "assert p == stops[i - 1] and q == stops[i] and 1 <= i and i < len(stops) and len(HPB) >= 0 and len(LCB) >= 0",
+                "scoped stash B | assert_last 40 gaps_classified(KIND, IDX, HPG, LCG, stops, E, i) | assert gaps_classified(KIND, IDX, HPG, LCG, stops, E, i)",
+                "scoped stash B | assert_last 40 forall(lambda b: implies(0 <= b and b < len(HPB), hairpins[b] is HPB[b] and ident(HPB[b]) < frB and 0 <= HPG[b] and HPG[b] < len(stops) - 1"
+                " and hairpins[b].strand.first == stops[HPG[b]] + 1 and hairpins[b].strand.last == stops[HPG[b] + 1] + 1))"
+                " | assert_last 41 hairpin_gaps(hairpins, HPG, stops) | assert hairpin_gaps(hairpins, HPG, stops)",
+                "scoped stash B | assert_last 40 candidate_gaps(loop_candidates, LCG, stops) | assert candidate_gaps(loop_candidates, LCG, stops)"]},
+        {"when": "after", "at": "graph = defaultdict(set)", "label": "facts-for-the-graph-loops",
+         # what the graph loops need of the earlier phases, restated; the clauses of the prefix stay in the context
+         "do": ["assert " + _CANDS]},
+        {"when": "before", "at": "i_first, i_last = ", "loop": 3, "label": "pair-(i,j)",
+         "do": ["let G0 = graph", "let LC = loop_candidates",
+                "assert 0 <= i and i < j and j < len(LC) and cand_ok(LC[i], E, DB) and cand_ok(LC[j], E, DB)",
+                "assert graph_only_links(G0, E, LC)",
+                "assert graph_all_links(G0, E, LC, i, j)"]},
+        {"when": "after", "at": "if self.entries[j_last - 1].pair == i_first", "loop": 3, "label": "pair-(i,j)-recorded",
+         # the graph after the two tests, relative to the graph before them (needs nothing but the two branch conditions)
+         "do": ["assert_last 9 forall(lambda a, b: (a in graph and b in graph[a]) == ((a in G0 and b in G0[a]) or (a == i and b == j and link(E, LC, i, j))"
+                " or (a == j and b == i and link(E, LC, j, i))))",
+                "assert_last 10 graph_only_links(graph, E, LC)",
+                "assert_last 11 graph_all_links(graph, E, LC, i, j + 1)"]},
+    ]
+
+
 CONTRACTS = dict(_c.CONTRACTS)
 CONTRACTS.update({
     "BpSeq.__post_init__": bpseq_post_init,
@@ -962,7 +1103,11 @@ CONTRACTS.update({
     "BpSeq.without_isolated": bpseq_without_isolated,
     "BpSeq.elements": bpseq_elements,
     "BpSeq.__stems_entries@cached": stems_entries_cached,
-    "BpSeq.elements@prefix": bpseq_elements_prefix,
+    # (the target name of C07 is unchanged; since the graph loops are under contract it denotes the LONGER prefix - every clause
+    # of bpseq_elements_prefix, proved at the later cut point, plus the two graph clauses; the class bpseq_elements_prefix itself
+    # is unchanged and still the base of contracts/determinism_elems_c.py)
+    "BpSeq.elements@prefix": bpseq_elements_graph,
+    "BpSeq.elements@graph": bpseq_elements_graph,
     "BpSeq.dot_bracket@text": bpseq_dot_bracket_text,
     "Strand.from_bpseq_entries": strand_from_entries,
     "Stem.from_bpseq_entries": stem_from_entries,
